@@ -32,6 +32,7 @@ type c13Case struct {
 	PubOK  bool
 	Meta   string // empty | some | poisoned
 	Router bool
+	CtxEnd bool // (stand-alone) the message's context ends while the handler runs: the poison decision does not depend on it
 }
 
 func c13Err(h string) error {
@@ -76,7 +77,10 @@ func runC13(c *Ctx) error {
 			for _, p := range []bool{true, false} {
 				for _, m := range []string{"empty", "some", "poisoned"} {
 					for _, r := range []bool{false, true} {
-						cases = append(cases, c13Case{h, f, p, m, r})
+						cases = append(cases, c13Case{h, f, p, m, r, false})
+						if !r && m == "some" {
+							cases = append(cases, c13Case{h, f, p, m, r, true})
+						}
 					}
 				}
 			}
@@ -160,8 +164,10 @@ func c13Run(r *tr.Run, cs c13Case) {
 		r.Emit("error", "what", err.Error())
 		return
 	}
+	endCtx := func() {}
 	handler := func(msg *message.Message) ([]*message.Message, error) {
 		r.Emit("hcall")
+		endCtx()
 		var outs []*message.Message
 		if cs.HRes == "ok2" || cs.HRes == "plain+outs" {
 			outs = []*message.Message{message.NewMessage("o1", nil), message.NewMessage("o2", nil)}
@@ -182,6 +188,12 @@ func c13Run(r *tr.Run, cs c13Case) {
 	msg := message.NewMessage(fmt.Sprintf("u%d", r.ID), []byte("the payload"))
 	for k, v := range c13Meta(cs.Meta) {
 		msg.Metadata.Set(k, v)
+	}
+	if cs.CtxEnd {
+		ctx, cancel := context.WithCancel(context.Background())
+		defer cancel()
+		msg.SetContext(ctx)
+		endCtx = cancel
 	}
 	if !cs.Router {
 		var rerr error
